@@ -120,6 +120,13 @@ struct Gen {
 		if (rng.chance(1, 2)) { Step s{.kind = "bit", .w = 0, .a = v}; s.k = rng.below(w(v)); return add(s); }
 		Step s{.kind = "eq", .w = 0, .a = v, .b = vecOfWidth(w(v))}; return add(s);
 	}
+	// a bit usable as stricter register enable: the library analyses enables as conjunctions of (negated) terms and rejects contradictions
+	// (c & !c: a register that is never enabled), so no AND / NOT structure here: every such bit is one opaque term
+	int condBit() {
+		for (int t = 0; t < 6; t++) { int b = someBit(); const std::string &k = r.steps[b].kind; if (k != "band" && k != "bnot") return b; }
+		if (!vecs.empty()) { int v = pickVec(); Step s{.kind = "bit", .w = 0, .a = v}; s.k = rng.below(w(v)); return add(s); }
+		int b = pickBit(); return add(Step{.kind = "bxor", .w = 0, .a = b, .b = pickBit()});
+	}
 	bool grouped(int i) const { return r.steps[i].dep != 0; }
 
 	void combStep() {
@@ -166,10 +173,10 @@ struct Gen {
 			int x = add(Step{.kind = "xor", .w = w(v), .a = fi, .b = b});
 			add(Step{.kind = "stage", .w = w(v), .a = x}); nHints++;
 		} else if (p == 2 && cls == "movable" && !noGroup) { // movable registers with different (stricter) enables feeding one hinted operation: enable splitting + holding circuit
-			int cnd = someBit();
+			int cnd = condBit();
 			Step m1{.kind = "mreg", .w = w(v), .a = v, .c = cnd}; if (r.rmix != "none" && rng.chance(2, 3)) m1.rst = rndBits(m1.w); m1.fl = 1 | (int) (rng.below(2) << 1); int a1 = add(m1);
 			int b = vecOfWidth(w(v));
-			if (rng.chance(1, 2)) { Step m2{.kind = "mreg", .w = w(v), .a = b}; if (r.rmix != "none" && rng.chance(2, 3)) m2.rst = rndBits(m2.w); m2.fl = 1; if (rng.chance(1, 3)) m2.c = someBit(); b = add(m2); }
+			if (rng.chance(1, 2)) { Step m2{.kind = "mreg", .w = w(v), .a = b}; if (r.rmix != "none" && rng.chance(2, 3)) m2.rst = rndBits(m2.w); m2.fl = 1; if (rng.chance(1, 3)) m2.c = condBit(); b = add(m2); }
 			static const char *ops[] = {"add", "xor", "or"};
 			int x = add(Step{.kind = ops[rng.below(3)], .w = w(v), .a = a1, .b = b});
 			add(Step{.kind = "stage", .w = w(v), .a = x}); nHints++;
@@ -237,7 +244,7 @@ struct Gen {
 			else if (c < 34 && cls == "movable" && !noGroup) { int v = anyGroupedValue(); if (v < 0) continue; Step s{.kind = "mreg", .w = w(v), .a = v};
 				if (r.rmix != "none" && rng.chance(2, 3)) s.rst = rndBits(s.w);
 				s.fl = 1 + 2 * (int) rng.below(2); // 1 forward, 3 forward + backward (a register that may not move forward is a feed-forward register: class feedforward)
-				if (rng.chance(1, 3)) { int cnd = someBit(); if (r.steps[cnd].dep != 0 || true) s.c = cnd; } // stricter enable: en & cnd  -> enable splitting / holding circuit
+				if (rng.chance(1, 3)) s.c = condBit(); // stricter enable: en & cnd  -> enable splitting / holding circuit
 				add(s); }
 			else if (c < 34 && cls == "negreg") { int v = anyGroupedValue(); if (v < 0) continue;
 				const Step &sv = r.steps[v];
@@ -540,6 +547,7 @@ void runCase(uint64_t k, uint64_t sub, const Recipe &r, Rng &rng, std::ostream &
 	std::ostringstream gH, gT;
 	size_t latches = 0, dummy = 0;
 	std::map<int, size_t> cntLag; bool lagDefined = true;
+	const char *phase = "hinted";
 	try {
 		{
 			DesignScope design; BuiltDesign d; buildDesign(r, HINTED, {}, d);
@@ -555,11 +563,13 @@ void runCase(uint64_t k, uint64_t sub, const Recipe &r, Rng &rng, std::ostream &
 				cntLag[step] = cnts.empty() ? 0 : *cnts.begin();
 			}
 		}
+		phase = "twin";
 		{
 			DesignScope design; BuiltDesign d; buildDesign(r, TWIN, N, d);
 			if (r.cls != "memory") { design.postprocess(); dumpGraph(design.getCircuit(), d.b, "tn", gT, dummy); } // memory: the twin is the design as written, not post-processed
 			trT = vh::simulate(design.getCircuit(), d.b, st);
 		}
+		phase = "lagtwin";
 		if (r.cls == "autonomous" && lagDefined) {
 			DesignScope design; BuiltDesign d; buildDesign(r, LAGTWIN, N, d, cntLag);
 			design.postprocess();
@@ -567,7 +577,7 @@ void runCase(uint64_t k, uint64_t sub, const Recipe &r, Rng &rng, std::ostream &
 		}
 	} catch (const std::exception &e) {
 		std::string msg = e.what(); for (char &ch : msg) if (ch == '\n' || ch == '\r') ch = ' ';
-		o << "error " << msg.substr(0, 300) << "\nend\n"; out << o.str(); return;
+		o << "error phase=" << phase << ' ' << msg.substr(0, 300) << "\nend\n"; out << o.str(); return;
 	}
 	for (size_t g = 0; g < N.size(); g++) o << "stages " << g << ' ' << N[g] << '\n';
 	o << "info latches=" << latches << " lagdefined=" << lagDefined << " lags=";
